@@ -16,6 +16,7 @@ from vlib import gen, observe, pdbio, common, refs, pkaparse
 from props import c09
 
 PROPERTY = "C10"
+REDUCE_KEYS = ["pdb"]
 LEVEL = "exploration"
 RULE = ("generated structures with shifted pKa values x user grids -g min max step (steps 0.1-2 incl. decimal steps "
         "that do not accumulate exactly such as 0.7 and 0.3, negative minima, maxima above 14) x windows -w (inside, "
